@@ -120,12 +120,12 @@ def edfCore (tua : RB) (D : Nat) (others : List EdfTask) (rem : Nat) (withBlocki
   | .ok L =>
     if paramGuardFails then .panic else
     overOffsets (edfSpace tua D others L) fun A =>
-      if tua.need (A + 1) < rem then .panic
-      else
-        let B := if withBlocking then edfBlocking others D A else 0
-        finishEDF A rem
-          (search .dedicated limit
-            (fun AF => B + (tua.need (A + 1) - rem) + edfHepWorkload others D A AF))
+      -- `self_interference.saturating_sub(rem_cost)` (a plain `-` until the `fix:` commit for
+      -- finding F9: it underflowed for a task under analysis that never releases a job)
+      let B := if withBlocking then edfBlocking others D A else 0
+      finishEDF A rem
+        (search .dedicated limit
+          (fun AF => B + (tua.need (A + 1) - rem) + edfHepWorkload others D A AF))
   | e => e
 
 /-- `edf::fully_preemptive::dedicated_uniproc_rta` -/
